@@ -79,7 +79,7 @@ theorem showNat_isDec (m : Nat) : ∀ c ∈ showNat m, isDec c = true := by
 theorem parseCigarLoop_format (c : List CigarOp) (h : ∀ co ∈ c, co.typ ≤ 9 ∧ co.len < 268435456) : ∀ op n,
     parseCigarLoop (c.flatMap fun co => showNat co.len ++ [opLetter co.typ]) [] op n = .ok c := by
   induction c with
-  | nil => intro op n; simp [parseCigarLoop, cigarTrailing]
+  | nil => intro op n; simp [parseCigarLoop]
   | cons co rest ih =>
     intro op n
     obtain ⟨ht, hl⟩ := h co List.mem_cons_self
